@@ -5,6 +5,7 @@ import (
 	"time"
 
 	"github.com/douban/gobeansdb/config"
+	"github.com/douban/gobeansdb/utils"
 )
 
 type ReqHistoy struct {
@@ -44,6 +45,9 @@ func (rl *ReqLimiter) Get(req *Request) {
 	atomic.AddInt32(&(rl.NumWait), 1)
 	t := <-rl.Chan
 	req.Token = t
+	if utils.VerifOn {
+		utils.Verif("p.token.get", t, req.Cmd)
+	}
 
 	req.Working = true
 	//logger.Debugf("get %d", t)
@@ -73,6 +77,9 @@ func (rl *ReqLimiter) Put(req *Request) {
 	rl.Histories[t].ServeTime = time.Since(rl.Histories[t].ServeStart)
 	rl.Histories[t].Working = false
 	rl.Owners[t].Working = false
+	if utils.VerifOn {
+		utils.Verif("p.token.put", t, req.Cmd)
+	}
 	rl.Chan <- t
 }
 
